@@ -280,6 +280,7 @@ pub struct Ctx {
     pub rng: Rng,
     pub cases_run: u64,
     pub registry: Registry,
+    pub trace: bool,
 }
 
 /// Executes one case with panic capture.  Harness errors are re-raised.
@@ -291,11 +292,12 @@ pub fn run_case(f: CaseFn, input: &Input) -> Outcome {
                 // not a finding: propagate as a harness/usage error
                 std::panic::resume_unwind(Box::new(msg));
             }
-            fail(
-                "no panic (Ok or Err)",
-                "panic",
-                format!("panicked: {}", msg),
-            )
+            let note = if msg.contains("overflow") {
+                " [witness is built with overflow-checks=on, as every debug build of dryoc is]"
+            } else {
+                ""
+            };
+            fail("no panic (Ok or Err)", "panic", format!("panicked: {}{}", msg, note))
         }
     }
 }
@@ -312,6 +314,11 @@ impl Ctx {
             None => panic!("{} case '{}' not registered", HARNESS, case),
         };
         self.cases_run += 1;
+        if self.trace {
+            // lets run_witness.py name the case when the process dies hard
+            // (abort / segfault cannot be caught in-process)
+            eprintln!("TRACE {} --input {}", case, input.to_args());
+        }
         match run_case(f, &input) {
             Ok(()) => Ok(()),
             Err(fail) => Err(Box::new(Found {
